@@ -567,6 +567,18 @@ pub fn run(ctx: &Ctx) -> i32 {
                 }
             }
         }
+        // dependencies written as struct literals (the fields are public): every single flag bit, and no flag at all, with and without a version
+        for k in DEP_KINDS {
+            for bit in 0..=32u32 {
+                for version in ["", "2.0"] {
+                    let bits = if bit == 32 { 0 } else { 1u32 << bit };
+                    let mut s = crate::corpus::one_file();
+                    s.name = "pkg".into();
+                    s.deps.entry(k).or_default().push(DepSpec::literal(bits, "helper", version));
+                    specs.push((format!("{}(Dependency {{ name: \"helper\", flags: {:#x}, version: {:?} }})", k, bits, version), s));
+                }
+            }
+        }
         let acc = merge(par_fold(specs.len() as u64, Acc::new, |i, acc| {
             let (what, spec) = &specs[i as usize];
             acc.evals += 1;
@@ -587,7 +599,7 @@ pub fn run(ctx: &Ctx) -> i32 {
                 },
             }
         }));
-        SubReport::new("value-domains", "A", "attributes with a small value domain, covered completely: every permission value 0…07777 given explicitly for regular files, directories and symbolic links (three packages of 4096 entries; the source files have other permissions); each of the eight dependency kinds × each of the 14 Dependency constructors × 8 names that collide with what the builder generates itself (the package's own name, its arch-qualified name, rpmlib / config names, a user name, an interpreter, the empty name): read-back oracle as for the setters (a configuration the builder refuses is not judged)", acc)
+        SubReport::new("value-domains", "A", "attributes with a small value domain, covered completely: every permission value 0…07777 given explicitly for regular files, directories and symbolic links (three packages of 4096 entries; the source files have other permissions); each of the eight dependency kinds × each of the 14 Dependency constructors × 8 names that collide with what the builder generates itself (the package's own name, its arch-qualified name, rpmlib / config names, a user name, an interpreter, the empty name); each dependency kind × a Dependency written as a struct literal with each single flag bit or none × with and without a version: read-back oracle as for the setters (a configuration the builder refuses is not judged)", acc)
     };
     // the whole corpus (curated rich configuration with every compression / key, sign/clear histories, payload enumeration)
     let c = crate::corpus::run_corpus(ctx, "corpus", "oracle: read-back of every supplied value", &|sub, it, rank, acc| {
